@@ -87,7 +87,7 @@ func (c05) Thresholds(tier string) map[string]int64 {
 }
 
 func (c05) Rule() string {
-	return "case = 50 inputs derived from one generated valid program rendered in a PRNG layout: the program itself (must load); a valid program spread over 2-4 readers (must load) and the same readers with one of them made invalid by construction; token-level mutations (delete / duplicate / swap / insert / replace from a dictionary of << >> { } === --- -> <<if <<endif>> <<else>> # \\\\ \" ( , [ space/tab, stray > ...); line deletions; truncations at PRNG byte offsets; mutations that are invalid by construction (unbalanced <<endif>>, {1 +}, missing ===, tab+space indentation of a statement); raw byte strings with invalid UTF-8, NUL and lone CR; empty and white-space-only inputs; a valid script with one statement that carries an oversized token (a number of 300-700 digits, a fraction of hundreds of digits, a string of 12-70 KiB, a variable name or command word of thousands of characters); a valid script with one stray character (form feed, vertical tab, NEL, NBSP, ideographic space, line separator, BOM, NUL, zero-width space) or a white-space run at its very start or very end, or blank lines followed by an indented first header; each input also cut at PRNG byte offsets into 2-4 readers; per case also: no reader at all (must be an error), the valid program / a mutation / a truncation delivered by a reader that returns 1-7 bytes per call, (0,nil) now and then and the last bytes together with io.EOF (same verdict as the string), and a reader that fails after a PRNG number of bytes - 0, all of them, or right after a complete node - alone and next to a healthy reader (must be an error). Validity oracle: an independent parse in the harness with the grammar's lexer and parser and the harness's own counting error listeners - valid iff no lexer error, no parser error, the parser stopped at end of input, and - judged by the harness itself, not by the lexer - no line that carries a statement is indented with both tabs and blanks; a multi-reader input is valid iff every reader is. The oracle is cross-checked by two labels (generated programs are valid, the by-construction mutations are invalid); a disagreement there is a harness error (inconclusive). Verdict: NewDialogueRunner returns (panics are caught; a call that does not return is caught by the child watchdog and confirmed alone) and err == nil iff the input is valid. Seeds: 20 strings per case over arbitrary bytes, length 0-40: an error iff a character outside [0-9a-z] occurs, never a panic. Non-trivial: a mutation the oracle rejects, a valid program in a non-canonical layout, or a multi-reader split. Distinct by hash of the readers."
+	return "case = 50 inputs derived from one generated valid program rendered in a PRNG layout: the program itself (must load); a valid program spread over 2-4 readers (must load) and the same readers with one of them made invalid by construction; token-level mutations (delete / duplicate / swap / insert / replace from a dictionary of << >> { } === --- -> <<if <<endif>> <<else>> # \\\\ \" ( , [ space/tab, stray > ...); line deletions; truncations at PRNG byte offsets; mutations that are invalid by construction (unbalanced <<endif>>, {1 +}, missing ===, tab+space indentation of a statement, the last === written with the indentation of the indented statement before it, i.e. inside a block that is still open); raw byte strings with invalid UTF-8, NUL and lone CR; empty and white-space-only inputs; a valid script with one statement that carries an oversized token (a number of 300-700 digits, a fraction of hundreds of digits, a string of 12-70 KiB, a variable name or command word of thousands of characters); a valid script with one stray character (form feed, vertical tab, NEL, NBSP, ideographic space, line separator, BOM, NUL, zero-width space) or a white-space run at its very start or very end, or blank lines followed by an indented first header; each input also cut at PRNG byte offsets into 2-4 readers; per case also: no reader at all (must be an error), the valid program / a mutation / a truncation delivered by a reader that returns 1-7 bytes per call, (0,nil) now and then and the last bytes together with io.EOF (same verdict as the string), and a reader that fails after a PRNG number of bytes - 0, all of them, or right after a complete node - alone and next to a healthy reader (must be an error). Validity oracle: an independent parse in the harness with the grammar's lexer and parser and the harness's own counting error listeners - valid iff no lexer error, no parser error, the parser stopped at end of input, and - judged by the harness itself, not by the lexer - no line that carries a statement is indented with both tabs and blanks; a multi-reader input is valid iff every reader is. The oracle is cross-checked by two labels (generated programs are valid, the by-construction mutations are invalid); a disagreement there is a harness error (inconclusive). Verdict: NewDialogueRunner returns (panics are caught; a call that does not return is caught by the child watchdog and confirmed alone) and err == nil iff the input is valid. Seeds: 20 strings per case over arbitrary bytes, length 0-40: an error iff a character outside [0-9a-z] occurs, never a panic. Non-trivial: a mutation the oracle rejects, a valid program in a non-canonical layout, or a multi-reader split. Distinct by hash of the readers."
 }
 
 func (c05) Assumptions() []string {
@@ -207,7 +207,23 @@ func invalidByConstruction(r *core.Rand, s string) (string, string) {
 			break
 		}
 	}
-	switch r.Intn(5) {
+	switch r.Intn(6) {
+	case 5:
+		// the end of the last node written inside a block that is still open: the line before it is an indented
+		// statement and the === gets the same indentation
+		if locs := nodeEndRe.FindAllStringIndex(s, -1); len(locs) > 0 && bodyStart >= 0 {
+			l := locs[len(locs)-1]
+			at := strings.Index(s[l[0]:l[1]], "===") + l[0]
+			before := strings.TrimRight(s[:at], "\r\n")
+			if k := strings.LastIndexAny(before, "\r\n"); k >= 0 {
+				prev := before[k+1:]
+				rest := strings.TrimLeft(prev, " \t")
+				ws := prev[:len(prev)-len(rest)]
+				if ws != "" && rest != "" && !strings.HasPrefix(rest, "//") && !strings.HasPrefix(rest, "<<endif") && !strings.HasPrefix(rest, "<<else") {
+					return s[:at] + ws + s[at:], "node-end-inside-an-open-block"
+				}
+			}
+		}
 	case 4:
 		// something after the last node end
 		eol := "\n"
@@ -335,6 +351,16 @@ func (p c05) judge(c *core.Ctx, class string, readers []string, label string) bo
 			if err != nil || pan != "" {
 				c.Violate("a program that is valid by construction is refused (by the lexer/parser under the harness's listeners and by NewDialogueRunner alike)", map[string]any{
 					"readers": readers, "readers_quoted": quoteAll(readers), "error": fmt.Sprint(err), "panic": pan})
+				return false
+			}
+		}
+		if label == "invalid" && valid {
+			// the other way round: the lexer / parser under the harness's listeners accept an input that cannot be
+			// valid. If NewDialogueRunner loads it too, the library accepts invalid syntax.
+			_, err, pan := mon.Create(nil, "k3", readers)
+			if err == nil && pan == "" {
+				c.Violate("input that is invalid by construction was loaded without an error (and the lexer/parser under the harness's listeners accept it too)", map[string]any{
+					"readers": readers, "readers_quoted": quoteAll(readers)})
 				return false
 			}
 		}
